@@ -1,15 +1,18 @@
 #!/bin/bash
 # usage: collect_seed.sh Cxx [Cyy ...] : copies the deliverables of the seeding sub-agent from its scratch worktree /tmp/seed/Cxx
 # into /verif/seeded/Cxx-seed{1,2}/ (patch.diff, demo.py, notes.md, meta.json), removes the worktree and evaluates each seed.
+# ROUND=2 collect_seed.sh Cxx : second-round worktree /tmp/seed/Cxxr2, stored as Cxx-seed{3,4}.
 cd /verif
+R=${ROUND:-1}
 for p in "$@"; do
-  W=/tmp/seed/$p
+  W=/tmp/seed/$p; [ "$R" = 2 ] && W=/tmp/seed/${p}r2
   for n in 1 2; do
     [ -f $W/seed$n.diff ] || { echo "$p: seed$n.diff missing"; continue; }
-    d=seeded/$p-seed$n; mkdir -p $d
+    m=$(( n + 2 * (R - 1) ))
+    d=seeded/$p-seed$m; mkdir -p $d
     cp $W/seed$n.diff $d/patch.diff; cp $W/demo$n.py $d/demo.py; cp $W/seed$n.md $d/notes.md 2>/dev/null
     [ -f $d/meta.json ] || echo "{\"property\": \"$p\", \"source\": \"independent sub-agent, given only the property text and a scratch worktree\", \"needs\": \"see notes.md\", \"ran\": \"seed_eval.sh (demo on unchanged + seeded tree, ./check $p --tier quick with PYVC_REPO=<scratch worktree>)\"}" > $d/meta.json
   done
   git -C /repo worktree remove --force $W 2>/dev/null; rm -rf $W
-  for n in 1 2; do [ -d seeded/$p-seed$n ] && ./seed_eval.sh seeded/$p-seed$n; done
+  for n in 1 2; do m=$(( n + 2 * (R - 1) )); [ -d seeded/$p-seed$m ] && ./seed_eval.sh seeded/$p-seed$m; done
 done
